@@ -19,10 +19,10 @@ type KeyUse struct {
 }
 
 type PolicyInfo struct {
-	Present   bool     `json:"present"`            // a panic sits in the default clause of a switch over a struct field
-	Tag       string   `json:"tag,omitempty"`      // e.g. reg.policy
-	TagKey    string   `json:"tag_key,omitempty"`  // router.registration.policy
-	Cases     []string `json:"cases,omitempty"`    // constants the switch handles
+	Present   bool     `json:"present"`           // a panic sits in the default clause of a switch over a struct field
+	Tag       string   `json:"tag,omitempty"`     // e.g. reg.policy
+	TagKey    string   `json:"tag_key,omitempty"` // router.registration.policy
+	Cases     []string `json:"cases,omitempty"`   // constants the switch handles
 	File      string   `json:"file,omitempty"`
 	Line      int      `json:"line,omitempty"`
 	ShareForm string   `json:"share_form,omitempty"` // in | notin | unconstrained | none
@@ -252,7 +252,9 @@ func mirrorSafe(s *Site) bool {
 	switch s.Class {
 	case "assert":
 		return s.CommaOk
-	case "accessor", "keyread", "connclose", "shutdown", "chanclose":
+	case "accessor":
+		return accessorNames[s.Accessor]
+	case "keyread", "connclose", "shutdown", "chanclose":
 		return true
 	case "index":
 		switch s.Idx {
